@@ -72,10 +72,16 @@ def exec : List Sexp → String
       let text := printVal x
       strHex text ++ " rt=" ++ boolStr (parsesTo (mkEnv bl) text (fun e => Expr.beq e (exprOf x)))
     | _, _ => "bad-op"
-  | [.atom "rt-type", tx, bad] =>
-    match tx.bytes?, badList bad with
-    | some bs, some bl =>
-      let env := mkEnv bl
+  | .atom "rt-type" :: tx :: bad :: rest =>
+    -- optional third argument: the float-text oracle `((BITS xTEXT) …)` for the bounds of Float types
+    let fl : Option (List (Nat × Str)) :=
+      match rest with
+      | [] => some []
+      | [f] => floatTable f
+      | _ => none
+    match tx.bytes?, badList bad, fl with
+    | some bs, some bl, some ft =>
+      let env := mkEnvF bl ft
       match parseType env (decodeUtf8 bs) with
       | none => "unmodelled"
       | some t =>
@@ -84,7 +90,7 @@ def exec : List Sexp → String
           | some t2 => Ty.beq t2 t && printTy t2 == s
           | none => false
         strHex s ++ " rt=" ++ boolStr ok
-    | _, _ => "bad-op"
+    | _, _, _ => "bad-op"
   | [.atom "rt-api", ctor] =>
     -- a type built through the Go constructors: NewArrayType / NewHashType / NewCollectionType / NewStringType
     let env := mkEnv []
